@@ -34,14 +34,14 @@ type c07Wave struct {
 }
 
 type c07Case struct {
-	CacheSize  int       `json:"cache_size"`
-	TTLms      int64     `json:"ttl_ms"`
-	ValidityMs int64     `json:"validity_ms"`
-	Domains    []string  `json:"mitm_domains,omitempty"`
-	Waves      []c07Wave `json:"waves"`
+	CacheSize  int               `json:"cache_size"`
+	TTLms      int64             `json:"ttl_ms"`
+	ValidityMs int64             `json:"validity_ms"`
+	Domains    []string          `json:"mitm_domains,omitempty"`
+	Waves      []c07Wave         `json:"waves"`
 	Origins    map[string]string `json:"origins"` // lower-case host -> kind of certificate its origin presents
-	WOne       int       `json:"w_one"`
-	WRand      int       `json:"w_rand"`
+	WOne       int               `json:"w_one"`
+	WRand      int               `json:"w_rand"`
 }
 
 var c07Hosts = []string{"a.mitm.example:443", "b.mitm.example:443", "A.MiTm.Example:443", "c.mitm.example:8443", "d.mitm.example:443", "e.mitm.example:443",
